@@ -96,13 +96,31 @@ func c01Run(c *Ctx, cs *c01Case, tag string) (out c01Outcome) {
 		return json.RawMessage(s)
 	}
 	pend := []*Pending{}
+	pendM := []string{}
+	var compAnswers [][]json.RawMessage // the item lists of the completion answers received so far
 	flush := func() error {
-		for _, p := range pend {
-			if _, err := p.Wait(); err != nil {
+		for i, p := range pend {
+			rep, err := p.Wait()
+			if err != nil {
 				return err
+			}
+			if pendM[i] == "textDocument/completion" && rep.Err == nil {
+				var items []json.RawMessage
+				var obj struct {
+					Items []json.RawMessage `json:"items"`
+				}
+				if json.Unmarshal(rep.Result, &items) != nil {
+					if json.Unmarshal(rep.Result, &obj) == nil {
+						items = obj.Items
+					}
+				}
+				if len(items) > 0 {
+					compAnswers = append(compAnswers, items)
+				}
 			}
 		}
 		pend = pend[:0]
+		pendM = pendM[:0]
 		return nil
 	}
 	for i, st := range cs.Steps {
@@ -118,6 +136,42 @@ func c01Run(c *Ctx, cs *c01Case, tag string) (out c01Outcome) {
 			}
 			continue
 		}
+		if st.Method == "$resolve" {
+			// completionItem/resolve for an item of an answer received earlier in this session: params = {"which": ...}
+			if err := flush(); err != nil {
+				classify(err)
+				return out
+			}
+			which, _ := st.Params.(map[string]interface{})["which"].(string)
+			var item interface{}
+			switch {
+			case which == "garbage":
+				item = st.Params.(map[string]interface{})["item"]
+			case len(compAnswers) == 0:
+				continue
+			case which == "latest-first":
+				item = compAnswers[len(compAnswers)-1][0]
+			case which == "latest-last":
+				l := compAnswers[len(compAnswers)-1]
+				item = l[len(l)-1]
+			default: // "stale-longest-last": the last item of the longest list answered before the latest one
+				best := compAnswers[0]
+				for _, l := range compAnswers[:len(compAnswers)-1] {
+					if len(l) > len(best) {
+						best = l
+					}
+				}
+				item = best[len(best)-1]
+			}
+			p, err := srv.Send("completionItem/resolve", item)
+			if err != nil {
+				classify(err)
+				return out
+			}
+			pend = append(pend, p)
+			pendM = append(pendM, "completionItem/resolve")
+			continue
+		}
 		if st.Req {
 			p, err := srv.Send(st.Method, repl(st.Params))
 			if err != nil {
@@ -125,6 +179,7 @@ func c01Run(c *Ctx, cs *c01Case, tag string) (out c01Outcome) {
 				return out
 			}
 			pend = append(pend, p)
+			pendM = append(pendM, st.Method)
 			if len(pend) >= 4 {
 				if err := flush(); err != nil {
 					classify(err)
@@ -1075,6 +1130,18 @@ func c01LaneD(c *Ctx, root *Rng, n int) []*c01Case {
 				for q := 0; q < r.Range(1, 6); q++ {
 					p := t.PosAt(c02PickOffset(r, t))
 					cs.Steps = append(cs.Steps, c01PosRequest(c01PosMethods[r.Intn(len(c01PosMethods))], uri(rel), p, r))
+				}
+				if r.Chance(1, 3) {
+					// a completion here, then the client asks for the details of an item: of this answer, of an answer it
+					// received earlier and still shows, or of something the server never sent
+					p := t.PosAt(c02PickOffset(r, t))
+					cs.Steps = append(cs.Steps, c01PosRequest("textDocument/completion", uri(rel), p, r))
+					which := r.Pick([]string{"latest-first", "latest-last", "stale-longest-last", "stale-longest-last", "garbage"})
+					rp := map[string]interface{}{"which": which}
+					if which == "garbage" {
+						rp["item"] = map[string]interface{}{"label": r.Pick([]string{"x", "", "GAlpha"}), "kind": r.Intn(30), "data": c01RandomValue(r, 1)}
+					}
+					cs.Steps = append(cs.Steps, c01Step{Method: "$resolve", Params: rp, Req: true})
 				}
 				if r.Chance(1, 4) {
 					cs.Steps = append(cs.Steps, c01DocRequests(uri(rel))...)
